@@ -1,18 +1,22 @@
 #!/bin/bash
+# usage: tools/baseline.sh [checkout]   (default /repo)
 # Run /repo's pinned test suite with the verification guard OFF and compare with BASELINE.json's stable_pass.
 # Exit 0 iff every stable_pass test still passes.
 set -u
-cd /repo
+R="${1:-/repo}"
+cd "$R"
+export VP_BASE_REPO="$R"
 export CARGO_NET_OFFLINE=true
 unset RUSTFLAGS
 rm -f target/nextest/pb/junit.xml
-cargo nextest run --workspace --no-fail-fast --tool-config-file pb:/w/lib/nextest.toml --profile pb --test-threads 8 --offline >/tmp/vp-baseline.log 2>&1
+cargo nextest run --workspace --no-fail-fast --tool-config-file pb:/w/lib/nextest.toml --profile pb --test-threads 8 --offline >"$R/target/vp-baseline.log" 2>&1
 python3 - <<'P'
-import json,sys,xml.etree.ElementTree as ET,glob
+import json,sys,os,xml.etree.ElementTree as ET,glob
+R=os.environ['VP_BASE_REPO']
 b=json.load(open('/root/.vp/BASELINE.json'))
 want=set(b['stable_pass'])
-files=glob.glob('/repo/target/nextest/pb/junit.xml')
-if not files: print("baseline: no junit.xml produced (see /tmp/vp-baseline.log)"); sys.exit(1)
+files=glob.glob(R+'/target/nextest/pb/junit.xml')
+if not files: print("baseline: no junit.xml produced (see target/vp-baseline.log)"); sys.exit(1)
 passed=set();failed=set()
 for tc in ET.parse(files[0]).getroot().iter('testcase'):
     tid=(tc.get('classname') or '')+'::'+(tc.get('name') or '')
